@@ -207,12 +207,54 @@ def clause6(P, res):
         for b in P.bodies.values():
             if not b.id.startswith(row["scope"]) or b.id in (baton.id,) or b.name == "handoff_session":
                 continue
-            if any(e.method == row["dequeue"] for e in b.calls()):
+            deqs = [e for e in b.calls() if e.method == row["dequeue"]]
+            if deqs:
+                from rules import cachelib
                 k = f"{row['id']}:{b.id}"
-                if any(e.method == row["baton"] for e in b.calls()):
-                    res.holds(rid, k, f"dequeues and calls {row['baton']}", where=f"{b.file}:{b.line}")
-                else:
+                batons = [e for e in b.calls() if e.method in (row["baton"], "handoff_session")]
+                if not batons:
                     res.violated(rid, k, f"{b.name} dequeues with {row['dequeue']} but never calls {row['baton']}: items it leaves behind wake nobody. " + row["why"], where=f"{b.file}:{b.line}")
+                    continue
+                # after a successful dequeue every path to the exit passes the baton; the only branches that may skip it are the failure outcomes of
+                # is_ok()/is_some() tests of the operation's own result (they cannot be taken after a success)
+                excused = set()
+                for blk in range(len(b.blocks)):
+                    if b.is_cleanup(blk) or b.term(blk)["k"] != "switch":
+                        continue
+                    ss = b.switch_source(blk)
+                    if ss and ss.get("kind") == "call" and ss["event"].method in ("is_ok", "is_some", "is_err", "is_none") and ss["event"].callee.startswith("core::"):
+                        ok_true = ss["event"].method in ("is_ok", "is_some")
+                        fail_label = ("false" if ok_true else "true") if not ss.get("neg") else ("true" if ok_true else "false")
+                        excused |= set(b.edges_by_label(blk).get(fail_label, []))
+                # a dequeue made after the senders were seen gone needs no baton: the last sender's drop wakes every waiter
+                gone = []
+                for blk in range(len(b.blocks)):
+                    if b.is_cleanup(blk) or b.term(blk)["k"] != "switch":
+                        continue
+                    ss = b.switch_source(blk)
+                    if ss and ss.get("kind") == "call" and ss["event"].method == "senders_alive":
+                        gone += b.edges_by_label(blk).get("true" if ss.get("neg") else "false", [])
+                starts = []
+                for dq in deqs:
+                    if gone and b.edges_dominate(gone, dq.pos):
+                        continue
+                    starts += [(t, 0) for _, t in cachelib.result_switch_edges(b, dq, "Some")]
+                exits = set(b.exits())
+                thr = frozenset(x.pos for x in batons)
+                bad = None
+                for st in starts:
+                    if st in thr:
+                        continue
+                    if b.pos_reach_set(st, removed=thr, removed_edges=frozenset(excused), strict=False) & exits:
+                        bad = st
+                        break
+                if not starts:
+                    res.unclassified(rid, k, f"{b.name}: the result of {row['dequeue']} is not matched on a Some edge the rule recognises", where=deqs[0].loc)
+                elif bad is not None:
+                    res.violated(rid, k, f"{b.name}: after a successful {row['dequeue']} a path reaches the exit without {row['baton']} (the call is conditional on something other "
+                                 "than the dequeue's own outcome): items left behind wake nobody. " + row["why"], where=batons[0].loc)
+                else:
+                    res.holds(rid, k, f"every successful dequeue is followed by {row['baton']}", where=batons[0].loc)
         live_b = baton.live_positions()
         pops = [e for e in baton.calls() if e.pos in live_b and ((e.method in ("pop_front", "pop_back", "pop") and "waiters" in baton.path_of_operand(e.args[0])) or e.method == "handoff_session")]
         k = f"{row['id']}:{baton.id}"
